@@ -374,41 +374,57 @@ func runC02(c *Ctx) {
 		return
 	}
 	var step *types.Func
+	var stateFieldType types.Type
+	for i := 0; i < st.NumFields(); i++ {
+		if st.Field(i).Name() == "state" {
+			stateFieldType = st.Field(i).Type()
+		}
+	}
+	// the step function is the statically resolved function called in run whose result is a parser state
+	// (`p.state = step(r, p)`, or through a local: `next := step(r, p); p.state = next`)
 	ast.Inspect(runFn.Decl.Body, func(n ast.Node) bool {
-		as, ok := n.(*ast.AssignStmt)
-		if !ok || len(as.Lhs) != 1 || len(as.Rhs) != 1 {
+		call, ok := n.(*ast.CallExpr)
+		if !ok || stateFieldType == nil {
 			return true
 		}
-		sel, ok := as.Lhs[0].(*ast.SelectorExpr)
-		if !ok || sel.Sel.Name != "state" {
+		fn := calleeOf(info, call)
+		if fn == nil || decls[fn] == nil {
 			return true
 		}
-		if call, ok := as.Rhs[0].(*ast.CallExpr); ok {
-			if fn := calleeOf(info, call); fn != nil {
-				step = fn
-			}
+		if sig, _ := fn.Type().(*types.Signature); sig != nil && sig.Results().Len() == 1 && types.Identical(sig.Results().At(0).Type(), stateFieldType) {
+			step = fn
 		}
 		return true
 	})
 	if step == nil || decls[step] == nil {
-		c.undecided("C02.a", "ansi.(*Parser).run/step", runFn.Decl.Pos(), "cannot find `p.state = step(r, p)` in run")
+		c.undecided("C02.a", "ansi.(*Parser).run/step", runFn.Decl.Pos(), "cannot find a call of a state-returning step function in run")
 		return
 	}
 	// timer callback: the func literal passed to time.AfterFunc inside the step function
-	var timerLit *ast.FuncLit
+	// timer callback: the function passed to time.AfterFunc inside the step function: a literal, or a
+	// method value / function of the package
+	var timerLit ast.Node
+	var timerBody *ast.BlockStmt
+	var timerDecl *ast.FuncDecl
 	ast.Inspect(decls[step].Body, func(n ast.Node) bool {
 		call, ok := n.(*ast.CallExpr)
 		if !ok {
 			return true
 		}
 		if fn := calleeOf(info, call); fn != nil && fullName(fn) == "time.AfterFunc" && len(call.Args) == 2 {
-			if lit, ok := call.Args[1].(*ast.FuncLit); ok {
-				timerLit = lit
+			switch cb := unparen(call.Args[1]).(type) {
+			case *ast.FuncLit:
+				timerLit, timerBody = cb, cb.Body
+			default:
+				if f := calleeOfExpr(info, cb); f != nil && decls[f] != nil && decls[f].Body != nil {
+					timerLit, timerBody, timerDecl = decls[f], decls[f].Body, decls[f]
+				}
 			}
 		}
 		return true
 	})
 
+	curSym := 0
 	newMachine := func(s c02State) *Machine {
 		m := &Machine{info: info, prog: c.P, objType: ptr, fields: map[string]val{},
 			tracked:  func(f *types.Var) bool { return trackedFields[f.Name()] },
@@ -430,7 +446,16 @@ func runC02(c *Ctx) {
 				m.callDecl(fd, append([]val{}, args...))
 				return true
 			}
-			m.act("%s", name)
+			// an action is recorded by name when it is applied to the received byte; any other argument is part of its identity
+			note := ""
+			for _, a := range args {
+				if a.k == vInt && int(a.i) != curSym {
+					note = fmt.Sprintf("(%d, not the received byte)", a.i)
+				} else if a.k == vUnknown {
+					note = "(unknown argument)"
+				}
+			}
+			m.act("%s%s", name, note)
 			if fd == nil || fd.Body == nil {
 				return true
 			}
@@ -478,11 +503,16 @@ func runC02(c *Ctx) {
 	}
 
 	stepOnce := func(s c02State, sym int) c02Trans {
+		curSym = sym
 		m := newMachine(s)
 		var t c02Trans
 		if sym == symTimeout {
 			fr := &frame{env: map[types.Object]val{}}
-			m.block(fr, timerLit.Body.List)
+			if timerDecl != nil {
+				m.callDecl(timerDecl, nil)
+			} else {
+				m.block(fr, timerBody.List)
+			}
 			t.next = c02State{fields: m.fields}
 		} else {
 			ret := m.callDecl(decls[step], []val{{k: vInt, i: int64(sym)}, {k: vObj}})
@@ -497,6 +527,10 @@ func runC02(c *Ctx) {
 			t.next = c02State{fields: m.fields}
 		}
 		for _, a := range m.actions {
+			if strings.HasPrefix(a, "append:") {
+				// an inlined buffer action: `append:buf(v)`; with v the received byte it is the primitive `append:buf`
+				a = strings.Replace(a, fmt.Sprintf("(%d)", sym), "", 1)
+			}
 			switch {
 			case a == "set:escTimeout":
 				t.next.armed = true
@@ -616,10 +650,10 @@ func runC02(c *Ctx) {
 			if t.stop {
 				gotNext = "STOP"
 			}
-			got := filterActs(t.acts)
+			got := c02Primitive(filterActs(t.acts))
 			match := false
 			for _, w := range wantActs {
-				if strings.Join(w, ",") == strings.Join(got, ",") {
+				if strings.Join(c02Primitive(w), ",") == strings.Join(got, ",") {
 					match = true
 				}
 			}
@@ -737,7 +771,7 @@ func runC02(c *Ctx) {
 	c02ActionBodies(c, decls, info, ptr)
 	// delivered payloads/intermediates are never modified by later parsing (shared with C08.b)
 	parserOwnership(c, "C02.f")
-	c.expect("C02.f", 5)
+	c.expect("C02.f", 3)
 }
 
 func sortedKeys(m map[string]bool) []string {
@@ -755,6 +789,26 @@ func fmtAlts(a [][]string) string {
 		parts = append(parts, "["+strings.Join(x, ",")+"]")
 	}
 	return strings.Join(parts, " or ")
+}
+
+// c02Prim: the one-line buffer actions of the reference, expressed as the primitive effect the interpreter
+// records when the same code is written inline. Both the implementation's and the reference's action lists
+// are normalised through this table, so that `p.oscPut(r)` and `p.oscData = append(p.oscData, r)` compare
+// equal (rule C02.e checks the bodies of the named methods where they exist). oscStart's only effect is the
+// installation of the exit handler, which is part of the product state and decided by C02.b.
+var c02Prim = map[string][]string{"oscStart": {}, "oscPut": {"append:oscData"}, "collect": {"append:intermediate"},
+	"param": {"append:params"}, "put": {"append:dcs.Data"}}
+
+func c02Primitive(acts []string) []string {
+	out := []string{}
+	for _, a := range acts {
+		if p, ok := c02Prim[a]; ok {
+			out = append(out, p...)
+			continue
+		}
+		out = append(out, a)
+	}
+	return out
 }
 
 // filterActs drops bookkeeping effects that are not parser actions.
@@ -837,6 +891,10 @@ func c02ActionBodies(c *Ctx, decls map[*types.Func]*ast.FuncDecl, info *types.In
 			pos = fd
 		}
 		p := posOf(pos)
+		if fd == nil {
+			c.okTrivial("C02.e", "ansi.(*Parser)."+a.fn+"/appends byte to "+a.path, 0, "no method "+a.fn+": the action is written inline and compared as the primitive append:"+a.path+" by C02.a")
+			continue
+		}
 		c.check(appendsParam(fd, a.path), "C02.e", "ansi.(*Parser)."+a.fn+"/appends byte to "+a.path, p,
 			"body is exactly `"+a.path+" = append("+a.path+", r)`", "action "+a.fn+" no longer appends exactly the received byte to "+a.path)
 	}
